@@ -45,6 +45,7 @@
 #endif
 #include "nmtools/utility/as_static.hpp"
 #include "show.hpp"
+#include <cstring>
 
 namespace fn = nmtools::functional;
 namespace view = nmtools::view;
@@ -52,6 +53,38 @@ namespace na = nmtools::array;
 using namespace vd;
 
 static const ll SENTINEL = -999;
+
+// ---- element type of the leaves, fixed per BUILD (-DC13_ELEM=...), selected per case by the dtype tag of the case line:
+//   i64 (default) int64 values, also far beyond 2^53 with odd low bits      i32 / i16 : narrow ints up to their range ends
+//   f64 : doubles that are NOT representable in binary32; they travel as their 64-bit patterns (exact), are printed with
+//         %.17g (round-trip exact) and compared as strings, i.e. bit for bit
+#define C13_ELEM_i64 1
+#define C13_ELEM_i32 2
+#define C13_ELEM_i16 3
+#define C13_ELEM_f64 4
+#ifndef C13_ELEM
+#define C13_ELEM C13_ELEM_i64
+#endif
+#if C13_ELEM == C13_ELEM_i64
+using elem_t = ll; static const char* ELEM_TAG = "i64";
+#elif C13_ELEM == C13_ELEM_i32
+using elem_t = int32_t; static const char* ELEM_TAG = "i32";
+#elif C13_ELEM == C13_ELEM_i16
+using elem_t = int16_t; static const char* ELEM_TAG = "i16";
+#else
+using elem_t = double; static const char* ELEM_TAG = "f64";
+#endif
+template <typename E> static E from_wire(ll w) {
+    if constexpr (std::is_floating_point_v<E>) { double d; static_assert(sizeof d == sizeof w); std::memcpy(&d, &w, sizeof d); return (E)d; }
+    else return (E)w;
+}
+template <typename E> static dyn_t<E> mk(const Arg& arg) {
+    std::vector<ll> same(arg.list.size(), 0);
+    auto arr = make_array<dyn_t<E>>(arg.shape, same);
+    E* p = nm::data(arr);                                   // row-major buffer of the run-time shaped ndarray
+    for (size_t i = 0; i < arg.list.size(); i++) p[i] = from_wire<E>(arg.list[i]);
+    return arr;
+}
 static const size_t GUARD = 4;
 
 template <typename T> static const auto& deref(const T& t) { if constexpr (std::is_pointer_v<T>) return *t; else return t; }
@@ -192,10 +225,14 @@ static std::string handle(const Case& c) {
     const std::string& op = c.op;
     if (op == "kern") {
         std::string comp = c.args[0].raw.substr(2), style = c.args[1].raw.substr(2);
-        auto a = make_array(c.args[2]); auto b = make_array(c.args[3]);
+        // kern S:comp S:style A:a A:b A:r I:bsz L:tids L:bids L:params S:dtype
+        const std::string dtype = c.args.size() > 9 ? c.args[9].raw.substr(2) : "i64";
+        auto a = mk<elem_t>(c.args[2]); auto b = mk<elem_t>(c.args[3]);
+        const bool elem_ok = dtype == ELEM_TAG;
         size_t bsz = (size_t)c.args[5].val; const auto& tids = c.args[6].list; const auto& bids = c.args[7].list;
         if (tids.size() != bids.size() || bsz == 0) return "unsupported";
 #if C13_PART == 1 || C13_PART == 3
+        if (!elem_ok) return "unsupported";
         // depth 1
         if (comp == "add")        return run_style(style, view::add(a, b), bsz, tids, bids);
         if (comp == "tr")         return run_style(style, view::transpose(a), bsz, tids, bids);
@@ -214,25 +251,14 @@ static std::string handle(const Case& c) {
 #if C13_PART >= 2
         // ---- part 2 / 3 (further builds of this source): views whose attributes carry RUN-TIME values into the extracted
         // function, and outputs of rank 5..8 (the kernel's shape capacity).  Parameters come from the case line:
-        // L:<params>; activation parameters are given in quarters (p/4), the data are doubles that are multiples of 4,
-        // so every expected value is an integer and exact in float and double.
+        // L:<params>; activation parameters are given in quarters (p/4), the data are doubles that are NOT
+        // representable in binary32 (bit patterns in the case line); every operation involved is exact-or-correctly-rounded
+        // IEEE double arithmetic in a fixed order, so host evaluation equals the reference bit for bit.
         const std::vector<ll> none; const auto& P = c.args.size() > 8 ? c.args[8].list : none;
         auto q = [&](size_t k) { return (float)((double)P.at(k) / 4.0); };
-        auto ad = make_array<dyn_t<double>>(c.args[2]); auto bd = make_array<dyn_t<double>>(c.args[3]);
         if (style == "cudaN") return "unsupported";
-        // views with as_static_t<...> attribute specialisations, operands of rank >= 3, non-default attribute values
-        if (comp == "tr_ax")         return run_style(style, view::transpose(a, vec_of<int>(P)), bsz, tids, bids);
-        if (comp == "neg_tr_ax")     return run_style(style, view::negative(view::transpose(a, vec_of<int>(P))), bsz, tids, bids);
-        if (comp == "sum_tr_ax")     return run_style(style, view::sum(view::transpose(a, vec_of<int>(P)), 0), bsz, tids, bids);
-        // (view::pad is not in the table: its fill value counts as a second operand of the view while the extracted functor is
-        //  unary, so functional::apply(f, operands) is rejected by the library's static_assert(arity == n_operands))
-        if (comp == "repeat_p")      return run_style(style, view::repeat(a, (size_t)P.at(0), (int)P.at(1)), bsz, tids, bids);
-        if (comp == "roll_p")        return run_style(style, view::roll(a, (int)P.at(0), (int)P.at(1)), bsz, tids, bids);
-        if (comp == "cumsum_p")      return run_style(style, view::cumsum(a, (int)P.at(0)), bsz, tids, bids);
-        if (comp == "sum_keep")      return run_style(style, view::sum(a, (int)P.at(0), nm::None, (ll)P.at(1), nm::True), bsz, tids, bids);
-        if (comp == "tile_p")        return run_style(style, view::tile(a, vec_of<size_t>(P)), bsz, tids, bids);
-        if (comp == "reshape_p")     return run_style(style, view::reshape(a, vec_of<size_t>(P)), bsz, tids, bids);
-        if (comp == "bto_p")         return run_style(style, view::broadcast_to(a, vec_of<size_t>(P)), bsz, tids, bids);
+        if (dtype == "f64") {
+        auto ad = mk<double>(c.args[2]); auto bd = mk<double>(c.args[3]);
         // parameterised unary ufuncs, alone / as outer node / as inner node of depth-2 and depth-3 compositions
         if (comp == "lrelu")         return run_style(style, view::leaky_relu(ad, q(0)), bsz, tids, bids);
         if (comp == "htanh")         return run_style(style, view::hardtanh(ad, q(0), q(1)), bsz, tids, bids);
@@ -244,8 +270,23 @@ static std::string handle(const Case& c) {
         if (comp == "neg_tr_lrelu")  return run_style(style, view::negative(view::transpose(view::leaky_relu(ad, q(0)))), bsz, tids, bids);
         if (comp == "htanh_tr_add")  return run_style(style, view::hardtanh(view::transpose(view::add(ad, bd)), q(0), q(1)), bsz, tids, bids);
         if (comp == "sshrink_lrelu") return run_style(style, view::softshrink(view::leaky_relu(ad, q(0)), q(1)), bsz, tids, bids);
+        }
+        if (!elem_ok) return "unsupported";
+        // views with as_static_t<...> attribute specialisations, operands of rank >= 3, non-default attribute values
+        if (comp == "tr_ax")         return run_style(style, view::transpose(a, vec_of<int>(P)), bsz, tids, bids);
+        if (comp == "neg_tr_ax")     return run_style(style, view::negative(view::transpose(a, vec_of<int>(P))), bsz, tids, bids);
+        if (comp == "sum_tr_ax")     return run_style(style, view::sum(view::transpose(a, vec_of<int>(P)), 0), bsz, tids, bids);
+        // (view::pad is not in the table: its fill value counts as a second operand of the view while the extracted functor is
+        //  unary, so functional::apply(f, operands) is rejected by the library's static_assert(arity == n_operands))
+        if (comp == "repeat_p")      return run_style(style, view::repeat(a, (size_t)P.at(0), (int)P.at(1)), bsz, tids, bids);
+        if (comp == "roll_p")        return run_style(style, view::roll(a, (int)P.at(0), (int)P.at(1)), bsz, tids, bids);
+        if (comp == "cumsum_p")      return run_style(style, view::cumsum(a, (int)P.at(0)), bsz, tids, bids);
+        if (comp == "sum_keep")      return run_style(style, view::sum(a, (int)P.at(0), nm::None, (elem_t)P.at(1), nm::True), bsz, tids, bids);
+        if (comp == "tile_p")        return run_style(style, view::tile(a, vec_of<size_t>(P)), bsz, tids, bids);
+        if (comp == "reshape_p")     return run_style(style, view::reshape(a, vec_of<size_t>(P)), bsz, tids, bids);
+        if (comp == "bto_p")         return run_style(style, view::broadcast_to(a, vec_of<size_t>(P)), bsz, tids, bids);
         // a reduction whose axis and initial value are run-time attributes
-        if (comp == "sum_ax_init")   return run_style(style, view::sum(a, (int)P.at(0), nm::None, (ll)P.at(1)), bsz, tids, bids);
+        if (comp == "sum_ax_init")   return run_style(style, view::sum(a, (int)P.at(0), nm::None, (elem_t)P.at(1)), bsz, tids, bids);
         // outputs of rank 5..8 from operands of rank 1..4 (params = axes / target shape / repetitions)
         if (comp == "expd")          return run_style(style, view::expand_dims(a, vec_of<int>(P)), bsz, tids, bids);
         if (comp == "neg_expd")      return run_style(style, view::negative(view::expand_dims(a, vec_of<int>(P))), bsz, tids, bids);
